@@ -12,8 +12,9 @@ from . import c05
 
 PROP = "C17"
 IMPORTS = c05.IMPORTS
-THEOREMS = []
-FACT_LEMMAS = []
+THEOREMS = ['C17_subst', 'C17_rule_verdict', 'C17_unresolvable_fails', 'C17_resolution_caught']
+FACT_LEMMAS = ['C17Proof.C17_resolution_errors_caught']
+DEPENDS = ['Py.v', 'Lang.v', 'Defs.v', 'Cond.v', 'Dsl.v', 'Check.v', 'DocSem.v', 'Inst.v', 'Gen/TablesGen.v', 'Gen/CallablesGen.v', 'Gen/SpecGen.v', 'Path.v', 'Cast.v', 'Str.v', 'SpecDefs.v', 'RuleDefs.v', 'Rule.v', 'Spec.v', 'SpecIO.v', 'Descr.v', 'Eq.v', 'RunSpec.v', 'SpecSpell.v', 'Proofs/Tie.v', 'Proofs/PyFacts.v', 'Proofs/C01Proof.v', 'Proofs/C02Proof.v', 'Proofs/RuleProof.v', 'Proofs/C03Proof.v', 'Proofs/C04Proof.v', 'RuleSpec.v', 'RuleTerms.v', 'PathSpec.v', 'RunRule.v', 'Run.v', 'C17Defs.v', 'Proofs/C17Proof.v', 'Properties/C17.v']
 ASSUMPTIONS = ["Layer P models CPython's operators (pysem)"]
 
 
